@@ -423,6 +423,7 @@ def run_scenario(sc, chooser=None, seed=0, max_steps=30000):
                 till_sig.go()
         sched.note("call", caller, "join", nid, tl)
         t_call = sched.clock
+        stopped_before = bool(ds.raw(th.stopped, "_go"))
         try:
             r = th.join(till=till_sig) if timed else th.join()
             stopped = bool(ds.raw(th.stopped, "_go"))
@@ -432,7 +433,11 @@ def run_scenario(sc, chooser=None, seed=0, max_steps=30000):
             raise
         except BaseException as e:   # noqa
             stopped = bool(ds.raw(th.stopped, "_go"))
-            st["join_results"].append((caller, nid, "raise", e, stopped, timed))
+            # (for the monitors) the time limit had run out before the call and the thread had not stopped then: what is raised
+            # may be the timeout, of the thread or of one of its children, even if the thread has stopped by the time anybody
+            # looks again
+            judged_stopped = stopped and not (timed and a[2] == 1 and not stopped_before)
+            st["join_results"].append((caller, nid, "raise", e, judged_stopped, timed))
             sched.note("ret", caller, "join", "raised" if stopped else "timeout")
         if timed and a[2] == 1 and sched.clock > t_call:
             st["viol"].append("C12: join(n%d, till) was called with a till that had already fired and took %.2f s of virtual time: it "
